@@ -87,6 +87,18 @@ pub fn pool() -> Vec<Game> {
                 final_fen: p.to_fen(),
             }
         }))
+        .chain(std::iter::once(()).map(|_| {
+            // an analysed game: move tokens with the judgement glyphs a Lichess export carries
+            // (?!, ??, !, !!, !?, ?), after the check / mate mark where there is one
+            let mut p = Pos::startpos();
+            let mut sans = Vec::new();
+            for (u, glyph) in [("e2e4", "!"), ("e7e5", ""), ("d1h5", "?!"), ("b8c6", "!!"), ("f1c4", "!?"), ("g8f6", "??"), ("h5f7", "?")] {
+                let m = p.find_legal_uci(u).unwrap();
+                sans.push(format!("{}{}", san(&p, &m), glyph));
+                p = p.make(&m);
+            }
+            Game { tags: vec![("Event".to_string(), "Analysed game".to_string()), ("Result".to_string(), "1-0".to_string()), ("Annotator".to_string(), "lichess.org".to_string())], sans, result: "1-0", final_fen: p.to_fen() }
+        }))
         .collect()
 }
 
@@ -399,7 +411,7 @@ fn check_doc(rep: &Reporter, pool: &[Game], d: &Doc, dev_bound: usize, max_chunk
 
 pub fn docs(tier: Tier) -> Vec<Doc> {
     let mut v = Vec::new();
-    let n = POOL.len() + 2;
+    let n = POOL.len() + 3;
     let endings: &[&'static str] = &["\n", "", "\n\n"];
     for comments in [false, true] {
         for &ending in endings {
